@@ -29,6 +29,8 @@ type zzWal struct {
 	closed       bool
 	yieldOnSync  bool // AppendAndSync yields between append and sync (schedule point "wal.sync:<name>")
 	appends      int
+	frozen       bool // set by a harness once the node has answered NewTerm: the log must not grow any more
+	racy         bool // Sync is a schedule point (concurrency harnesses)
 }
 
 func zzNewWal(name string) *zzWal {
@@ -49,6 +51,7 @@ func (w *zzWal) AppendAsync(e *proto.LogEntry) error {
 	if w.lastAppended != -1 && e.Offset != w.lastAppended+1 {
 		return wal.ErrInvalidNextOffset
 	}
+	vAssert("log-does-not-grow-after-answering-new-term", !w.frozen)
 	w.ents = append(w.ents, zzWalEntry{e.Term, e.Offset, e.Value, e.Timestamp})
 	w.lastAppended = e.Offset
 	if w.first == -1 {
@@ -69,7 +72,13 @@ func (w *zzWal) AppendAndSync(e *proto.LogEntry, cb func(error)) {
 	w.lastSynced = w.lastAppended
 	cb(nil)
 }
-func (w *zzWal) Sync(context.Context) error { w.lastSynced = w.lastAppended; return nil }
+func (w *zzWal) Sync(context.Context) error {
+	if w.racy {
+		vYield("wal.Sync:" + w.name)
+	}
+	w.lastSynced = w.lastAppended
+	return nil
+}
 func (w *zzWal) TruncateLog(o int64) (int64, error) {
 	if o == -1 {
 		_ = w.Clear()
